@@ -404,9 +404,10 @@ class RetryExecutor(CanCustomizeBind, Executor):
         if found_job.delegate_future.cancel():
             self._log.debug("Successful cancel: %s", found_job)
             future._clear_delegate()
-            # Don't remove from _jobs here,
-            # the callback attached to delegate_future was expected
-            # to take care of that
+            # The delegate's callback leaves a cancelled job alone while
+            # cancel() is in progress, so remove it here (we still hold the
+            # future's lock, and the future is about to become cancelled).
+            self._pop_job(found_job)
             return True
 
         self._log.debug("Could not cancel: %s", found_job)
@@ -427,14 +428,13 @@ class RetryExecutor(CanCustomizeBind, Executor):
                 found_job = job
                 break
 
-        # Callbacks are only installed after a job is added, and this is
-        # the only place a job with a delegate associated will be removed,
-        # thus it should not be possible for a job to be missing.
-        assert found_job, "BUG: no job associated with delegate %s" % delegate_future
-
         if delegate_future.cancelled():
             # retrying on cancel is not allowed
             self._log.debug("Delegate was cancelled: %s", delegate_future)
+            if not found_job:
+                # Our own cancel() cancelled the delegate and already
+                # removed the job.
+                return
             future = found_job.future
             future._me_delegate_cancelled()
             if future.done():
@@ -443,6 +443,11 @@ class RetryExecutor(CanCustomizeBind, Executor):
                 future._clear_delegate()
                 self._pop_job(found_job)
             return
+
+        # Callbacks are only installed after a job is added, and other than
+        # here a job with a delegate associated is only removed by a successful
+        # cancel, thus it should not be possible for a job to be missing.
+        assert found_job, "BUG: no job associated with delegate %s" % delegate_future
 
         (should_retry, sleep_time) = eval_policy(found_job, self._log)
 
